@@ -12,7 +12,7 @@ theorem modWFb_sound (m : LinMod) (h : modWFb m = true) : ModWF m := by
   simp only [modWFb, Bool.and_eq_true, decide_eq_true_eq, List.all_eq_true, Bool.or_eq_true, Bool.not_eq_true',
     bne_iff_ne, ne_eq, List.mem_range] at h
   obtain ⟨⟨⟨⟨⟨h1, h2⟩, h3⟩, h4⟩, h5⟩, h6⟩ := h
-  refine ⟨?_, ?_, ?_, h2, h3, h4, h5, ?_, ?_⟩
+  refine ⟨?_, ?_, ?_, h2, h3, h4, h5, ?_⟩
   · intro p hp fx hfx
     exact Fx.wfb_sound fx ((h1 p hp).2 fx hfx)
   · intro p hp hnil
@@ -24,13 +24,7 @@ theorem modWFb_sound (m : LinMod) (h : modWFb m = true) : ModWF m := by
   · intro hm
     rcases h6 with h | h
     · rw [hm] at h; cases h
-    · exact h.1
-  · intro x hx
-    rcases h6 with h | h
-    · rw [hx.2.1] at h; cases h
-    · rcases h.2 with h' | h'
-      · exact h'
-      · exact absurd hx.2.2 (h' x hx.1)
+    · exact h
 
 theorem firstPlay_sound (m : LinMod) : ∀ (f o o1 : Nat), firstPlay m f o = some o1 →
     SkipRange m o o1 ∧ isPlay m o1 ∧ o ≤ o1 := by
@@ -73,18 +67,13 @@ theorem seqHypB_sound (e : PlayEnv) (ep chain : Nat) (ctl0 : List Nat) (info0 : 
     rw [hfp] at h
     simp only [Bool.and_eq_true, decide_eq_true_eq, List.all_eq_true, Bool.or_eq_true, Bool.not_eq_true',
       bne_iff_ne, ne_eq, List.mem_range, beq_iff_eq, Bool.and_eq_false_imp, decide_eq_false_iff_not] at h
-    obtain ⟨⟨⟨⟨⟨⟨⟨⟨⟨⟨⟨⟨⟨⟨g1, g2⟩, g3⟩, g4⟩, g4b⟩, g5⟩, g6⟩, g7⟩, g8⟩, g9⟩, g10⟩, g11⟩, g12⟩, g13⟩, g14⟩ := h
+    obtain ⟨⟨⟨⟨⟨⟨⟨⟨⟨⟨⟨⟨⟨g1, g2⟩, g3⟩, g4b⟩, g5⟩, g6⟩, g7⟩, g8⟩, g9⟩, g10⟩, g11⟩, g12⟩, g13⟩, g14⟩ := h
     obtain ⟨f1, f2, f3⟩ := firstPlay_sound e.m _ ep o1 hfp
-    refine ⟨o1, modWFb_sound e.m g1, g2, f1, f2, f3, ?_, ?_, g4b, g5, g6, rfl, ?_, ?_, ⟨g13, g14⟩⟩
+    refine ⟨o1, modWFb_sound e.m g1, g2, f1, f2, f3, ?_, g4b, g5, g6, rfl, ?_, ?_, ⟨g13, g14⟩⟩
     · intro he o ho
       rcases g3 with h | h
       · exact absurd h he
       · exact h o ho
-    · intro he hp
-      rcases g4 with (h | h) | h
-      · exact absurd h he
-      · exact absurd ⟨hp.1, hp.2⟩ h
-      · exact h
     · cases hsi : e.si
       rw [hsi] at g7 g8 g9 g10 g11
       simp only at g7 g8 g9 g10 g11
